@@ -120,6 +120,13 @@ def Rsync.join (u : Rsync) (path : Bytes) : Except Err Rsync :=
       let base := if endsWithSlash u.bytes then u.bytes else u.bytes ++ [slash]
       .ok { u with bytes := base ++ path }
 
+/-- `Rsync::canonical_module`: the module with the authority in lower case — only when the authority
+has an upper-case letter; otherwise the module text as written -/
+def Rsync.canonicalModule (u : Rsync) : Bytes :=
+  if u.authority.any (fun c => 65 ≤ c ∧ c ≤ 90) then
+    rsyncScheme ++ u.authority.map toLower ++ [47] ++ u.moduleName ++ [47]
+  else u.bytes.take u.pathStart
+
 /-- `Rsync::eq_module` — `rsyncModuleCaseInsensitive` is read from the source: whether the
 module *name* is compared ignoring case (true in the original code) or exactly. -/
 def Rsync.eqModule (u o : Rsync) : Bool :=
